@@ -9,7 +9,7 @@ into the language of coq/Model/MiniLat.v; the names of the locals are free, thei
 loops.  Anything outside the subset is refused (exit 3).  Proofs/LatSource.v proves that the translation computes the stages
 of Model.Compile.augment_classes.  std::sort and calculate_covariant_classes are matched, not translated.
 """
-import os, sys
+import os, re, sys
 
 sys.path.insert(0, os.path.dirname(os.path.abspath(__file__)))
 sys.path.insert(0, os.path.join(os.path.dirname(os.path.abspath(__file__)), '..', 'tools'))
@@ -344,6 +344,64 @@ def catalog_stage(st, stage):
     return lo.seq(body_of(st[3]))
 
 
+def covariant_function(src):
+    """compiler<Policy>::calculate_covariant_classes(class_& cls), lowered into cvstmt"""
+    params, body, _ = mc.find_function(src, r'\bvoid\s+compiler<Policy>::calculate_covariant_classes\b', 'calculate_covariant_classes')
+    pm = re.fullmatch(r'class_&(\w+)', re.sub(r'\s+', '', params))
+    if not pm:
+        raise mc.Unsupported('calculate_covariant_classes: the parameter is no longer `class_& cls`: ' + params)
+    cls = pm.group(1)
+    top = nonempty(mc.parse_function_body(mc.drop_trace(body), ())[1])
+    COV = ('member', ('id', cls), 'covariant_classes', False)
+
+    def bad(msg, node):
+        raise mc.Unsupported('calculate_covariant_classes: %s: %s' % (msg, mc.show(node)[:300]))
+
+    def dcov(d):
+        return ('member', ('id', d), 'covariant_classes', True)
+
+    def stmts(sts, d):
+        out = [one(st, d) for st in nonempty(sts)]
+        out = [t for t in out if t != 'VSkip']
+        if not out:
+            return 'VSkip'
+        r = out[-1]
+        for t in reversed(out[:-1]):
+            r = '(VSeq %s\n   %s)' % (t, r)
+        return r
+
+    def one(st, d):
+        k = st[0]
+        if k == 'block':
+            return stmts(st[1], d)
+        if k == 'if' and not st[1] and st[4] is None:
+            c = st[2]
+            if d is None and body_of(st[3]) == [('return', None)] and c in (('un', '!', call0(COV, 'empty')), ('bin', '!=', call0(COV, 'size'), ('num', 0)),
+                                                                         ('bin', '>', call0(COV, 'size'), ('num', 0))):
+                return 'VReturnIfDone'
+            if d is not None and c in (call0(dcov(d), 'empty'), ('bin', '==', call0(dcov(d), 'size'), ('num', 0))):
+                return '(VIfDerivedFresh %s)' % stmts(body_of(st[3]), d)
+        if k == 'rangefor' and isinstance(st[1], str) and d is None and st[2] == ('member', ('id', cls), 'direct_derived', False):
+            return '(VForDerived %s)' % stmts(body_of(st[3]), st[1])
+        if k == 'expr':
+            e = st[1]
+            if d is None and e == ('call', ('member', COV, 'insert', False), [('un', '&', ('id', cls))]):
+                return 'VInsertSelf'
+            if d is not None and e == ('call', ('id', 'calculate_covariant_classes'), [('un', '*', ('id', d))]):
+                return 'VRecurse'
+            if d is not None and e == ('call', ('id', 'std::copy'), [call0(dcov(d), 'begin'), call0(dcov(d), 'end'),
+                                                                   ('call', ('id', 'std::inserter'), [COV, call0(COV, 'end')])]):
+                return 'VCopyDerived'
+            if d is not None and e in (('call', ('member', COV, 'insert', False), [call0(dcov(d), 'begin'), call0(dcov(d), 'end')]),):
+                return 'VCopyDerived'
+        # for (auto x : derived->covariant_classes) cls.covariant_classes.insert(x);
+        if (k == 'rangefor' and isinstance(st[1], str) and d is not None and st[2] == dcov(d)
+                and body_of(st[3]) == [('expr', ('call', ('member', COV, 'insert', False), [('id', st[1])]))]):
+            return 'VCopyDerived'
+        bad('statement not in the subset', st)
+    return stmts(top, None)
+
+
 def closure_stage(st):
     """for (bool changed = true; changed;) { changed = false; BODY }    |  bool changed = true; while (changed) {...}
        |  do { changed = false; BODY } while (changed);    ->  BODY lowered (the loop itself is run_closure)"""
@@ -421,6 +479,7 @@ def main():
         if not (cov[0] == 'rangefor' and isinstance(cov[1], str) and cov[2] == ('id', 'classes')
                 and body_of(cov[3]) == [('expr', ('call', ('id', 'calculate_covariant_classes'), [('id', cov[1])]))]):
             raise mc.Unsupported('augment_classes: the last loop is no longer `for (auto& rtc : classes) calculate_covariant_classes(rtc);`')
+        covtext = covariant_function(src)
     except mc.Unsupported as e:
         die(str(e))
     out = ('(* GENERATED by translators/lattice.py from %s - do not edit.\n'
@@ -437,7 +496,9 @@ def main():
            '(* the loop that sorts the bases by weight and finds the direct ones *)\n'
            'Definition gen_direct : lstmt :=\n  %s.\n\n'
            '(* the loop that fills direct_derived *)\n'
-           'Definition gen_derived : lstmt :=\n  %s.\n' % (SRC, collect, bases, closure, pre, stages['dedup'], stages['direct'], stages['derived']))
+           'Definition gen_derived : lstmt :=\n  %s.\n\n'
+           '(* the body of compiler<Policy>::calculate_covariant_classes *)\n'
+           'Definition gen_covariant : cvstmt :=\n  %s.\n' % (SRC, collect, bases, closure, pre, stages['dedup'], stages['direct'], stages['derived'], covtext))
     vlib.write_if_changed(os.path.join(vlib.COQ, 'Gen', 'GenLat.v'), out)
 
 
